@@ -1973,11 +1973,14 @@ pub(crate) fn stub_resolve_ops(amp_count: u32) -> Vec<u8> {
 
 macro_rules! lx_macro_var_expr_harness {
     ($k:literal, $b:literal, $uw:literal, $name:ident, $fixed:expr) => {
+        lx_macro_var_expr_harness!($k, $b, $uw, $name, $fixed, Txt::any(PFX, $fixed));
+    };
+    ($k:literal, $b:literal, $uw:literal, $name:ident, $fixed:expr, $gen:expr) => {
 lx_harness! {
     #[kani::unwind($uw)]
     #[kani::stub(get_macro_resolve_ops_from_amps, stub_resolve_ops)]
     fn $name() {
-        let t = Txt::<$k, $b>::any(PFX, $fixed);
+        let t: Txt<$k, $b> = $gen;
         // ASCII keeps the query small; the non-ASCII name paths are the same eat_while loop
         let mut i = 0;
         while i < $k {
@@ -2041,6 +2044,11 @@ lx_harness! {
 lx_macro_var_expr_harness!(3, 16, 5, lx_macro_var_expr_k3, &['&']);
 lx_macro_var_expr_harness!(4, 20, 6, lx_macro_var_expr_k4, &['&']);
 lx_macro_var_expr_harness!(6, 28, 7, lx_macro_var_expr_cont_k6, &['&', 'a', '&', '&', '&']);
+// exactly n ASCII characters at constant byte positions
+lx_macro_var_expr_harness!(3, 8, 7, lx_macro_var_expr_ascii_n3, &['&'], Txt::ascii_exact_fixed(&['&']));
+lx_macro_var_expr_harness!(4, 8, 7, lx_macro_var_expr_ascii_n4, &['&'], Txt::ascii_exact_fixed(&['&']));
+lx_macro_var_expr_harness!(6, 12, 8, lx_macro_var_expr_cont_ascii_n6, &['&', 'a', '&', '&', '&'], Txt::ascii_exact_fixed(&['&', 'a', '&', '&', '&']));
+lx_macro_var_expr_harness!(7, 12, 9, lx_macro_var_expr_cont_ascii_n7, &['&', 'a', '&', '&', '&'], Txt::ascii_exact_fixed(&['&', 'a', '&', '&', '&']));
 
 // =============================================================================================
 // Lexer::new: byte-order mark handling (C02, C03, C17)
